@@ -87,7 +87,10 @@ func (b *PrftBox) Type() string {
 
 // Size - return calculated size
 func (b *PrftBox) Size() uint64 {
-	return uint64(boxHeaderSize + 20 + 4*int(b.Version))
+	if b.Version != 0 { // 64-bit media_time for any non-zero version, as in decode and encode
+		return uint64(boxHeaderSize + 24)
+	}
+	return uint64(boxHeaderSize + 20)
 }
 
 // Encode - write box to w
